@@ -191,9 +191,9 @@ static void format_expected_string_value(Constraint *constraint, char *message, 
 }
 
 
-char *failure_message_for(Constraint *constraint, const char *actual_string, intptr_t actual_value) {
+/* The message with every piece of text in it taken literally */
+static char *literal_failure_message_for(Constraint *constraint, const char *actual_string, intptr_t actual_value) {
     char actual_int_value_string[32];
-    const char *actual_value_as_string;
     char *message;
     size_t message_size = strlen(constraint_as_string_format) +
             strlen(expected_value_string_format) +
@@ -217,17 +217,11 @@ char *failure_message_for(Constraint *constraint, const char *actual_string, int
 
     message = (char *)malloc(message_size);
 
-    /* if the actual value expression contains '%' we want it to survive the final expansion with
-       arguments that happens in assert_true() */
-    actual_value_as_string = double_all_percent_signs_in(actual_string);
-
     /* expand the constraint with the actual value in string format... */
     snprintf(message, message_size - 1,
              constraint_as_string_format,
-             actual_value_as_string,
+             actual_string,
              constraint->name);
-
-    free((void*)actual_value_as_string);
 
     if (no_expected_value_in(constraint)) {
         return message;
@@ -252,14 +246,6 @@ char *failure_message_for(Constraint *constraint, const char *actual_string, int
         if (is_equal_to_string_constraint(constraint)) {
             strcat(message, "\n");
             format_expected_string_value(constraint, message, message_size);
-        }
-        /* The final string may have percent characters, so, since it is
-           later used in a (v)printf, we have to double them
-        */
-        if (next_percent_sign(message) != NULL) {
-            char *message_with_doubled_percent_signs = double_all_percent_signs_in(message);
-            free(message);
-            message = message_with_doubled_percent_signs;
         }
         return message;
     }
@@ -296,3 +282,19 @@ char *failure_message_for(Constraint *constraint, const char *actual_string, int
 
     return message;
 }
+
+char *failure_message_for(Constraint *constraint, const char *actual_string, intptr_t actual_value) {
+    char *literal_message = literal_failure_message_for(constraint, actual_string, actual_value);
+    char *message;
+
+    /* The message is later used as a (v)printf format with no arguments, in assert_true(), so
+       every percent character in it - from the actual or the expected expression or from a
+       string value - has to be doubled, exactly once, to survive that expansion */
+    message = double_all_percent_signs_in(literal_message);
+    if (message == NULL) {
+        return literal_message;
+    }
+    free(literal_message);
+    return message;
+}
+
